@@ -12,8 +12,9 @@ C12 — the line-oriented files next to `info`:
 `libname=` at the very end of a line, a 4-byte line "TASK"), C12-F8s.diff (`check_symbol_file` on an
 empty value), C12-F13.diff (symbol line ending before the type), C12-F12.diff (no `[stack]` line)
 and C12-S3.diff (`%s` without a width) applied (all of them are in /repo by now).
-`nl = true`: with proposed_fixes/C12-F18t.diff, -F18m, -F18s, -F18c applied: a last line without its
-newline is an incomplete record and ends the file (`TextScan.nlGate`); `nl = false`: the code as it is.
+`nl = true`: with proposed_fixes/C12-F18t.diff (task.txt), -F18m (map), -F18s (both loops over a .sym
+file: `check_symbol_file` and `load_module_symbol_file`) applied: a last line without its newline is an
+incomplete record and ends the file (`TextScan.nlGate`); `nl = false`: the code as it is.
 
 Lines longer than the 4096-byte buffers are outside the model (`err "long line"`).  Core-only.
 -/
@@ -156,6 +157,21 @@ def chromeHeader (fixed : Bool) (items : List Item) : List Int → PR (List Int)
     else if fixed then chromeHeader fixed items r
     else .oob "NULL task->comm"
 
+/-- cmds/replay.c `print_task` (`replay -f task`), cmds/report.c `adjust_task_runtime` / `print_task`
+    (`report --task`), cmds/graph.c `graph_build_task` (`graph --task`): for every tid of `info` they
+    use `task->t = find_task(sessions, tid)` (`->comm`, `->time`, `->pid`) without a test; a tid whose
+    TASK/FORK line is missing from (a cut) task.txt gives NULL.  Returns, per tid, whether the task has
+    a name.  `fixed`: C12-F19.diff (`open_data_file` gives such a tid a nameless task). -/
+def taskFields (fixed : Bool) (items : List Item) : List Int → PR (List (Int × Bool))
+  | [] => .ok []
+  | t :: r =>
+    if hasTask items t || fixed then
+      match taskFields fixed items r with
+      | .ok l => .ok ((t, hasTask items t) :: l)
+      | .err e => .err e
+      | .oob x => .oob x
+    else .oob "NULL task->t"
+
 /-! ### sid-*.map -/
 
 structure MapEnt where
@@ -255,7 +271,7 @@ structure SymHdr where
   deriving Repr, DecidableEq
 
 /-- the body of the loop of `check_symbol_file` (`false`: the `break` at the first non-`#` line;
-    with C12-F18c.diff the newline test comes right behind that test, and both `break`) -/
+    with C12-F18s.diff the newline test comes right behind that test, and both `break`) -/
 def checkStep (fixed : Bool) (h : SymHdr) (l0 : Bytes) : PR (SymHdr × Bool) :=
   let l := cstr l0
   if l.length ≥ 4096 then .err "long line" else
@@ -275,7 +291,7 @@ def checkStep (fixed : Bool) (h : SymHdr) (l0 : Bytes) : PR (SymHdr × Bool) :=
 def checkLoop (fixed nl : Bool) (n : Nat) (s : Bytes) (h : SymHdr) : PR SymHdr :=
   lineLoop (getLineG nl) (checkStep fixed) n s h
 
-/-- `check_symbol_file`.  `nl`: with proposed_fixes/C12-F18c.diff -/
+/-- `check_symbol_file`.  `nl`: with proposed_fixes/C12-F18s.diff -/
 def checkSymFile (fixed nl : Bool) (s : Bytes) : PR SymHdr := checkLoop fixed nl (s.length + 1) s {}
 
 /-- after the type character: `if (*pos++ != ' ') continue; name = pos;` and the TAB cut -/
